@@ -53,7 +53,15 @@ def skeletons : List (String × List CTM.Skeleton.Stmt) := [
   ("precompute", CTM.Generated.precompute),
   ("validateH5ad", CTM.Generated.validateH5ad),
   ("findMarkers", CTM.Generated.findMarkers),
-  ("typeAssignment", CTM.Generated.typeAssignment)]
+  ("typeAssignment", CTM.Generated.typeAssignment),
+  ("findMarkersFromPMask", CTM.Generated.findMarkersFromPMask),
+  ("createPValueMask", CTM.Generated.createPValueMask),
+  ("amalgamateH5ad", CTM.Generated.amalgamateH5ad),
+  ("pivotCsrH5ad", CTM.Generated.pivotCsrH5ad),
+  ("transposeByWayOfDisk", CTM.Generated.transposeByWayOfDisk),
+  ("transposeOnDiskV2", CTM.Generated.transposeOnDiskV2),
+  ("addSparseByGene", CTM.Generated.addSparseByGene),
+  ("roundXToIntegers", CTM.Generated.roundXToIntegers)]
 
 def handle : Handler := fun op inp =>
   match op with
